@@ -70,7 +70,7 @@ func c10Siblings(x *X) {
 			return true
 		}
 		for step := 0; step < depth; step++ {
-			k := c.Choose(17)
+			k := c.Choose(19)
 			if k == 0 {
 				break
 			}
@@ -129,17 +129,21 @@ func c10Siblings(x *X) {
 					want, werr := markdown.Wrap(fresh()).Render()
 					ok = judge(name, got, gerr, want, werr)
 				case k == 16:
-					if st.rows < 2 && !st.aligned || st.rows < 2 && c.Bool() {
+					if st.rows < 2 {
 						name = "t.AddRowItems(n, two-line)"
 						t.AddRowItems(fmt.Sprintf("n%d", st.rows), "x\ny")
 						st.rows++
-					} else if !st.aligned {
-						name = "t.Column(2) right-aligned"
-						t.Column(2).SetProperty(align.PropertyType, align.Right)
-						st.aligned = true
 					} else {
-						name = "(no-op)"
+						name = "(table already grown twice)"
 					}
+				case k == 17:
+					name = "t.Column(2) right-aligned"
+					t.Column(2).SetProperty(align.PropertyType, align.Right)
+					st.aligned = true
+				case k == 18:
+					name = "t.Column(2) alignment unset"
+					t.Column(2).SetProperty(align.PropertyType, nil)
+					st.aligned = false
 				}
 			})
 			c.Logf("%s", name)
